@@ -22,7 +22,7 @@ def one(d):
         m = json.load(open(mp))
     except Exception:
         m = {}
-    wt, out = f'/tmp/bn-wt-{name}', f'/tmp/bn-out-{name}'
+    wt, out = f'/tmp/bn-wt-{name}-{os.getpid()}', f'/tmp/bn-out-{name}-{os.getpid()}'
     subprocess.run(['git', '-C', '/repo', 'worktree', 'add', '-q', '--detach', wt, 'HEAD'], check=True)
     try:
         r = subprocess.run(['git', '-C', wt, 'apply', d + '/patch.diff'], capture_output=True, text=True)
